@@ -5,13 +5,13 @@ CONSTANTS
   Rank <- W_Rank
   InitH = 1
   Guide <- W_Guide
-  MaxSteps = 5
-  AllowCrash = FALSE
+  MaxSteps = 4
+  AllowCrash = TRUE
   AvoidPanics = FALSE
   EmitAll = FALSE
 INIT Init
 NEXT Next
 VIEW View
 CHECK_DEADLOCK FALSE
-INVARIANTS C04_Chain C07_ViewVS
-PROPERTIES C04_Immutable C04_Monotone
+INVARIANTS C04_Chain
+PROPERTIES C10_RestartOK
